@@ -72,7 +72,9 @@ def set_kinded(node, fn, module_sets, depth=0):
     if isinstance(node, ast.Call) and dotted(node.func) in ('set', 'frozenset'):
         return True
     if isinstance(node, ast.BinOp) and isinstance(node.op, (ast.BitAnd, ast.BitOr, ast.Sub, ast.BitXor)):
-        return set_kinded(node.left, fn, module_sets, depth) or set_kinded(node.right, fn, module_sets, depth)
+        # set algebra, also on dict views: d.items() | e.items() and d.keys() & e.keys() are plain sets
+        view = lambda x: isinstance(x, ast.Call) and isinstance(x.func, ast.Attribute) and x.func.attr in ('items', 'keys') and not x.args and not x.keywords
+        return set_kinded(node.left, fn, module_sets, depth) or set_kinded(node.right, fn, module_sets, depth) or view(node.left) or view(node.right)
     if isinstance(node, ast.Call) and isinstance(node.func, ast.Attribute) and node.func.attr in ('union', 'intersection', 'difference', 'symmetric_difference', 'copy') \
             and set_kinded(node.func.value, fn, module_sets, depth):
         return True
@@ -176,6 +178,9 @@ def check_function(qual, fn, mutables, module_sets, emit, is_entry_like=False, m
                 set_iter(g.iter, 'iterates over')
         if isinstance(n, ast.Call) and dotted(n.func) in ('list', 'tuple', 'next', 'iter', 'enumerate', 'zip') and n.args:
             set_iter(n.args[0], 'materialises')
+        if isinstance(n, ast.Call) and dotted(n.func) in ('dict', 'collections.OrderedDict', 'OrderedDict') and n.args:
+            # dict(<set of pairs>): for a key that occurs twice the pair iterated last wins
+            set_iter(n.args[0], 'builds a dict from')
         if isinstance(n, ast.Call) and isinstance(n.func, ast.Attribute) and n.func.attr == 'join' and n.args:
             set_iter(n.args[0], 'joins')
         if isinstance(n, ast.Call) and isinstance(n.func, ast.Attribute) and n.func.attr == 'pop' and not n.args:
